@@ -225,3 +225,24 @@ package ipfslog
 //@ func (*IPFSLog).ToMultihash
 //@   requires logInv(l)
 //@   lockrequires noLocksHeld()
+
+// ---- Iterator (C15) ----
+//@ func (*IPFSLog).Iterator
+//@   requires logInv(l)
+//@   requires output != nil ==> !closed(output)
+//@   lockrequires noLocksHeld()
+//@   modifies chanof(output)
+//@   ensures [iterator-rejects-missing-arguments] options == nil || output == nil ==> err != nil
+//@   ensures [iterator-closes-the-channel-on-success] err == nil ==> closed(output)
+//@   ensures [iterator-error-leaves-channel-open] err != nil && output != nil ==> !closed(output) && sentlen(output) == old(sentlen(output))
+//@   ensures [iterator-emits-at-most-amount] err == nil && options.Amount != nil && deref(options.Amount) >= 0 ==> sentlen(output) - old(sentlen(output)) <= deref(options.Amount)
+//@   replay iterator
+//@   loop 0
+//@     invariant validSlice(start) && (start == nil || fresh(start)) && held[l.lock] == 1
+//@   loop 1
+//@     invariant validSlice(start) && (start == nil || fresh(start))
+//@   loop 2
+//@     invariant validSlice(start) && (start == nil || fresh(start))
+//@   loop 3
+//@     invariant !closed(output) && sentlen(output) == old(sentlen(output)) + $k
+//@     loopmodifies chanof(output)
